@@ -221,6 +221,7 @@ thread_local! {
 }
 
 pub fn with<R>(f: impl FnOnce(&mut World) -> R) -> R {
+    crate::heartbeat::beat();
     WORLD.with(|w| f(&mut w.borrow_mut()))
 }
 
